@@ -27,7 +27,7 @@ func init() {
 		Assumptions: []string{"standard library contexts and a non-standard Context implementation (manualCtx) are used as inputs", "ConflatedContext inputs are non-nil (the statement allows nil only for CombineContext's others)"},
 		Families: []core.Family{
 			{Name: "enumerated", N: core.TierN(3, 3), Solo: true, Run: c16Enumerated},
-			{Name: "simultaneous", N: core.TierN(80, 800), Batch: 20, Run: c16Simultaneous},
+			{Name: "simultaneous", N: core.TierN(80, 3200), Batch: 20, Run: c16Simultaneous},
 		},
 	})
 }
